@@ -42,7 +42,7 @@ func runC04(c *Ctx) {
 			name := cfgs[i].name
 			if res.StartErr != nil {
 				c.procFailures(res.Proc, "start "+name)
-				c.Violation("proxy-start-failed", "the proxy did not start with a valid configuration: "+res.StartErr.Error(), map[string]any{"config": name})
+				c.startFailure(res.StartErr, name)
 				continue
 			}
 			c.Ev.Eval(int(res.Answered))
